@@ -721,3 +721,36 @@ Lemma grid_value_unrepaired_reads_out_of_bounds :
     aligned D gmin gmax npts = true /\
     grid_value false (grid_setup D gmin gmax npts 0) gmin gmax level x = None.
 Proof. exists [(2 # 1, 4 # 1)], 0, (4 # 1), 4%nat, 1%nat, 0. vm_compute. split; reflexivity. Qed.
+
+(* ================================================================ the mathematics of one sweep step *)
+Ltac qcases :=
+  repeat match goal with
+  | |- context [Qle_bool ?a ?b] =>
+      let E := fresh "E" in destruct (Qle_bool a b) eqn:E; [apply Qle_bool_iff in E | apply Qle_bool_false in E]
+  | H : context [if Qle_bool ?a ?b then _ else _] |- _ =>
+      let E := fresh "E" in destruct (Qle_bool a b) eqn:E; [apply Qle_bool_iff in E | apply Qle_bool_false in E]
+  end.
+Ltac tent_auto := unfold tent, qmax, qmin; simpl fst; simpl snd; qcases; try lra; try reflexivity.
+
+(* a nested interval has the smaller tent *)
+Theorem tent_nested_le : forall b d b' d' t, b <= b' -> d' <= d -> tent (b', d') t <= tent (b, d) t.
+Proof. intros b d b' d' t Hb Hd. tent_auto. Qed.
+(* crossing intervals b <= b', d <= d': the pointwise minimum of the two tents is the tent of (b', d) — the "point" that the
+   sweep hands to the next level *)
+Theorem tent_cross_min : forall b d b' d' t, b <= b' -> d <= d' -> qmin (tent (b, d) t) (tent (b', d') t) == tent (b', d) t.
+Proof. intros b d b' d' t Hb Hd. tent_auto. Qed.
+(* disjoint (touching) intervals: the minimum vanishes, nothing is handed on *)
+Theorem tent_disjoint_min : forall b d b' d' t, b <= d -> b' <= d' -> d <= b' -> qmin (tent (b, d) t) (tent (b', d') t) == 0.
+Proof. intros b d b' d' t H0 H1 H. tent_auto. Qed.
+(* the same for the running envelope env of the tents swept so far (all deaths <= dL, env at least the tent of the last
+   peak (bL,dL)) against the next characteristic point (b',d') with bL <= b', dL <= d' *)
+Theorem sweep_step_min : forall env bL dL b' d' t,
+  tent (bL, dL) t <= env -> env <= qmax 0 (dL - t) -> bL <= b' -> dL <= d' ->
+  qmin env (tent (b', d') t) == tent (b', dL) t.
+Proof.
+  intros env bL dL b' d' t H1 H2 Hb Hd. revert H1 H2. unfold tent, qmax, qmin; simpl fst; simpl snd.
+  intros H1 H2. qcases; try lra.
+Qed.
+(* extracting the maximum: max and min of two values carry the same pair of values *)
+Theorem max_min_pair : forall x y, (qmax x y == x /\ qmin x y == y) \/ (qmax x y == y /\ qmin x y == x).
+Proof. intros x y. unfold qmax, qmin. destruct (Qle_bool x y); [right | left]; split; reflexivity. Qed.
